@@ -91,7 +91,17 @@ Fixpoint split_eq (s : str) : str * option str :=
       else let '(k, v) := split_eq r in (c :: k, v)
   end.
 
-(* the names matched in from_str_named, in source order; `|=` on FaceAttrs is a plain OR of the bits *)
+(* FaceAttrs::underline / unpack / pack / BitOr (face.rs:132-195): the low three bits are an underline
+   code (6 and 7 stand for no underline), the rest are flags; `a | b` takes b's underline unless it
+   is None and ORs the flags.  `|=` is `*self = *self | rhs` (it was a plain OR of the bits before
+   the repair: attrs_or_orig). *)
+Definition under_of (x : N) : N := let u := N.land x 7 in if u <=? 5 then u else 0.
+Definition attrs_or (a b : N) : N :=
+  let u := if under_of b =? 0 then under_of a else under_of b in
+  N.lor u (N.shiftl (N.lor (N.shiftr a 3) (N.shiftr b 3)) 3).
+Definition attrs_or_orig (a b : N) : N := N.lor a b.
+
+(* the names matched in from_str_named, in source order *)
 Definition attr_parse_table : list (str * N) :=
   [(s2l "underline", 1); (s2l "underline_double", 2); (s2l "underline_curly", 3);
    (s2l "underline_dotted", 4); (s2l "underline_dashed", 5);
@@ -99,6 +109,7 @@ Definition attr_parse_table : list (str * N) :=
 
 Section FaceParse.
   Variable oracle : str -> option rgba.
+  Variable aor : N -> N -> N.        (* the `|=` of FaceAttrs *)
 
   Definition face_step (f : face) (piece : str) : outcome face :=
     let '(k, v) := split_eq piece in
@@ -115,7 +126,7 @@ Section FaceParse.
       | None => Err 1
       end
     else match lookup_lit attr_parse_table key with
-         | Some bits => Ok {| f_fg := f_fg f; f_bg := f_bg f; f_attrs := N.lor (f_attrs f) bits |}
+         | Some bits => Ok {| f_fg := f_fg f; f_bg := f_bg f; f_attrs := aor (f_attrs f) bits |}
          | None => match key with [] => Ok f | _ => Err 2 end
          end.
 
@@ -126,8 +137,11 @@ Section FaceParse.
     end.
 
   (* Face::from_str_named *)
-  Definition face_parse (s : str) : outcome face := face_fold (split 44 s) face_default.
+  Definition face_parse_gen (s : str) : outcome face := face_fold (split 44 s) face_default.
 End FaceParse.
+
+Definition face_parse (oracle : str -> option rgba) := face_parse_gen oracle attrs_or.
+Definition face_parse_orig (oracle : str -> option rgba) := face_parse_gen oracle attrs_or_orig.
 
 (* attribute sets: an underline style (0..5) and any of the five flags *)
 Definition attrs_ok (bits : N) : bool := (N.land bits 7 <=? 5) && (bits <? 256).
